@@ -3,7 +3,7 @@
 (* Trace validation for Multiproc.tla.  IOEnv.TRACE_FILE holds a JSON      *)
 (* array of executions of the *real* Multiprocessor.filter recorded under  *)
 (* the virtual scheduler (harness/vmp.py, harness/drivers/c08.py):         *)
-(*   [cfg |-> [P,Max,N,Faults,Abandon], ev |-> <<event>>]                  *)
+(*   [cfg |-> [P,Max,N,Outs,Faults,Abandon], ev |-> <<event>>]             *)
 (* event = [r |-> role, w |-> worker id or 0, e |-> kind, x |-> payload,   *)
 (*          s |-> snapshot of the shared state when the event was logged]. *)
 (* Roles: main, L (loader thread), cbL (its callback thread), W (worker    *)
@@ -23,7 +23,7 @@ Ev  == Evs[l]
 SeqRange(s) == {s[i] : i \in DOMAIN s}
 
 TraceInit == /\ tid \in 1..Len(Traces) /\ l = 1
-             /\ cfg = [P |-> Traces[tid].cfg.P, Max |-> Traces[tid].cfg.Max, N |-> Traces[tid].cfg.N,
+             /\ cfg = [P |-> Traces[tid].cfg.P, Max |-> Traces[tid].cfg.Max, N |-> Traces[tid].cfg.N, Outs |-> Traces[tid].cfg.Outs,
                        Faults |-> SeqRange(Traces[tid].cfg.Faults), Abandon |-> Traces[tid].cfg.Abandon]
              /\ InitRest
 
